@@ -131,8 +131,6 @@ Hypothesis enc_len : forall h p, length (c_enc P h p) = length p.
 Hypothesis enc_byte : forall h p, isbytes p -> isbytes (c_enc P h p).
 Hypothesis same_nonce : ctr_mode c = true -> nonce = iv.
 
-(* what the receiver makes of the honest value: with encryption, values below 0 fall under the hiding offset *)
-Definition expect (m : Z) : outcome := if encr c && (m <? 0) then Reject else Deliver m.
 
 Local Opaque hide_length buf_in_size sizeinbase62 ctr_block.
 
@@ -188,9 +186,10 @@ Lemma send_record st m w st' : 0 <= s_chunk st -> send P c iv st m = Some (w, st
     (auth c = true -> tag = mac P (line ++ c_nl :: encode62 (s_sqn st))) /\
     s_sqn st' = (if auth c then s_sqn st + 1 else s_sqn st) /\
     s_iv_sent st' = (s_iv_sent st || encr c) /\ 0 <= s_chunk st' /\
-    forall k, sync st k -> exists k', process_record P c nonce k line tag = (expect m, k') /\ sync st' k'.
+    forall k, sync st k -> exists k', process_record P c nonce k line tag = (Deliver m, k') /\ sync st' k'.
 Proof.
   intros Hch H. unfold send in H.
+  destruct (encr c && (m <? 0)) eqn:NG; [discriminate|].
   destruct (buf_in_size <=? _); [discriminate|].
   set (tmp := if encr c then m + hide_length else m) in *.
   set (str := encode62 tmp) in *.
@@ -227,7 +226,7 @@ Proof.
     + cbn [s_chunk]. unfold chunk'. destruct (ctr_mode c); lia.
     + intros k [Ks Kh].
       assert (OL : forall k0, k_sqn k0 = (if auth c then s_sqn st + 1 else s_sqn st) -> k_hist k0 = s_hist st ->
-                exists k', open_line P c nonce k0 line = (expect m, k') /\
+                exists k', open_line P c nonce k0 line = (Deliver m, k') /\
                   k_sqn k' = (if auth c then s_sqn st + 1 else s_sqn st) /\ k_hist k' = OpData ct :: h1).
       { intros k0 K0s K0h.
         destruct (open_enc_honest k0 h1 str (if ctr_mode c then n else O) ct tmp line E eq_refl Hstr) as (k' & O1 & O2 & O3).
@@ -236,8 +235,8 @@ Proof.
         - intros CM. exists chunk'. unfold line, h1. rewrite CM in *. cbn [andb] in C2.
           rewrite (same_nonce eq_refl). split; [unfold chunk'; rewrite CM; lia|]. split; [exact C2|]. split; [reflexivity|]. now rewrite K0h.
         - exists k'. split; [|split; [congruence|assumption]].
-          rewrite O1. unfold expect, tmp. rewrite E, hide_cmp. cbn [andb].
-          destruct (m <? 0); [reflexivity|]. f_equal. f_equal. lia. }
+          rewrite O1. unfold tmp. rewrite hide_cmp. cbn [andb] in NG. rewrite NG.
+          f_equal. f_equal. lia. }
       unfold process_record. destruct (auth c) eqn:A.
       * rewrite <- Ks, AA, bytes_eqb_refl.
         destruct (OL {| k_sqn := k_sqn k + 1; k_chunk := k_chunk k; k_bad := false; k_hist := k_hist k |}) as (k' & O1 & O2 & O3);
@@ -256,7 +255,7 @@ Proof.
     + reflexivity.
     + cbn [s_iv_sent]. now rewrite orb_false_r.
     + exact Hch.
-    + intros k [Ks Kh]. unfold process_record, expect. rewrite E. cbn [andb].
+    + intros k [Ks Kh]. unfold process_record.
       assert (OL : forall k0, open_line P c nonce k0 str = (Deliver m, k0)).
       { intros k0. unfold open_line. rewrite E. unfold str, tmp. now rewrite base62_roundtrip. }
       destruct (auth c) eqn:A.
@@ -265,16 +264,10 @@ Proof.
 Qed.
 
 (* ---- a whole honest stream -------------------------------------------------------------------- *)
-Definition dl (o : outcome) : list Z := match o with Deliver v => [v] | _ => [] end.
-Definition expected (ms : list Z) : list Z := flat_map (fun m => dl (expect m)) ms.
-
-Lemma expect_not_stall m : expect m <> Stall.
-Proof. unfold expect. destruct (encr c && (m <? 0)); discriminate. Qed.
-
 Lemma records_honest ms : forall st w st' k fuel,
   0 <= s_chunk st -> (encr c = false \/ s_iv_sent st = true) ->
   send_all P c iv st ms = Some (w, st') -> sync st k -> (length w < fuel)%nat ->
-  stream_records P c nonce fuel k w = expected ms.
+  stream_records P c nonce fuel k w = ms.
 Proof.
   induction ms as [|m r IH]; intros st w st' k fuel Hch Hiv H Sy Hf.
   - cbn in H. injection H as <- <-. destruct fuel; reflexivity.
@@ -284,21 +277,19 @@ Proof.
     destruct (Hp k Sy) as (k' & PR & Sy').
     assert (Hw' : w1 = line ++ c_nl :: tag).
     { rewrite Hw. destruct Hiv as [-> | ->]; [reflexivity|]. cbn [negb andb]. now rewrite andb_false_r. }
-    clear Hw. subst w1. destruct fuel as [|fuel]; [lia|]. cbn [stream_records expected flat_map].
+    clear Hw. subst w1. destruct fuel as [|fuel]; [lia|]. cbn [stream_records].
     replace ((line ++ c_nl :: tag) ++ w2) with (line ++ c_nl :: tag ++ w2) by (now rewrite <- app_assoc).
     rewrite first_record_build by assumption. rewrite PR.
-    assert (IHr : stream_records P c nonce fuel k' w2 = expected r).
-    { eapply IH; try eassumption.
-      - destruct Hiv as [E|E]; [now left|]. right. rewrite Hi, E. reflexivity.
-      - rewrite !app_length in Hf. cbn [length] in Hf. lia. }
-    pose proof (expect_not_stall m). destruct (expect m); cbn [dl app]; [now rewrite IHr|exact IHr|contradiction].
+    f_equal. eapply IH; try eassumption.
+    + destruct Hiv as [E|E]; [now left|]. right. rewrite Hi, E. reflexivity.
+    + rewrite !app_length in Hf. cbn [length] in Hf. lia.
 Qed.
 
 Hypothesis iv_len : length iv = blklen P.
 
-(* the meaning of the honest wire of a fresh link is the list of values sent (negative ones dropped under encryption) *)
+(* the meaning of the honest wire of a fresh link is the list of values accepted for sending *)
 Theorem deliveries_honest ms w st' : send_all P c iv (sstate0 c iv) ms = Some (w, st') ->
-  stream_deliveries P c nonce rstate0 w = expected ms.
+  stream_deliveries P c nonce rstate0 w = ms.
 Proof.
   intros H. destruct ms as [|m r].
   - cbn in H. injection H as <- <-. unfold stream_deliveries. cbn [r_buf rstate0 app r_iv negb].
@@ -313,38 +304,37 @@ Proof.
                   k_hist := if encr c && negb (ctr_mode c) then [OpIV iv] else [] |}).
     assert (Sy : sync (sstate0 c iv) k0) by (split; reflexivity).
     destruct (Hp k0 Sy) as (k' & PR & Sy').
-    assert (Tail : forall fuel, (length w2 < fuel)%nat -> stream_records P c nonce fuel k' w2 = expected r).
+    assert (Tail : forall fuel, (length w2 < fuel)%nat -> stream_records P c nonce fuel k' w2 = r).
     { intros fuel Hf. eapply records_honest; try eassumption.
       destruct (encr c); [right; exact Hi|now left]. }
-    pose proof (expect_not_stall m) as NS.
     destruct (encr c) eqn:E.
     + subst w1. rewrite <- !app_assoc.
       destruct (Nat.leb_spec (blklen P) (length (iv ++ line ++ (c_nl :: tag) ++ w2))) as [L|L];
         [|rewrite app_length in L; lia].
       rewrite firstn_app, <- iv_len, Nat.sub_diag, firstn_all, firstn_O, app_nil_r.
       rewrite skipn_app, Nat.sub_diag, skipn_all, skipn_O. cbn [app].
-      cbn [stream_records core_of rstate0 r_sqn r_chunk r_bad r_hist k_sqn k_chunk k_bad k_hist expected flat_map].
-      replace (line ++ c_nl :: tag ++ w2) with (line ++ c_nl :: tag ++ w2) by reflexivity.
+      cbn [stream_records core_of rstate0 r_sqn r_chunk r_bad r_hist k_sqn k_chunk k_bad k_hist].
       rewrite first_record_build by assumption.
       assert (K : {| k_sqn := 1; k_chunk := 0; k_bad := false;
                      k_hist := if ctr_mode c then [] else [OpIV iv] |} = k0).
       { unfold k0. cbn [andb]. destruct (ctr_mode c); reflexivity. }
       rewrite K, PR. rewrite Tail by (rewrite !app_length; cbn [length]; rewrite app_length; lia).
-      destruct (expect m); cbn [dl app]; [reflexivity|reflexivity|contradiction].
+      reflexivity.
     + subst w1. cbn [app]. rewrite <- app_assoc. cbn [app].
-      cbn [stream_records core_of rstate0 r_sqn r_chunk r_bad r_hist expected flat_map].
+      cbn [stream_records core_of rstate0 r_sqn r_chunk r_bad r_hist].
       rewrite first_record_build by assumption.
       assert (K : core_of rstate0 = k0) by (unfold k0; rewrite ?E; reflexivity).
       rewrite K, PR. rewrite Tail by (rewrite !app_length; cbn [length]; rewrite app_length; lia).
-      destruct (expect m); cbn [dl app]; [reflexivity|reflexivity|contradiction].
+      reflexivity.
 Qed.
 
-Lemma expected_nonneg ms : (encr c = true -> Forall (fun m => 0 <= m) ms) -> expected ms = ms.
+(* a negative integer is refused on an encrypted link: nothing is written, the state is not touched *)
+Lemma send_negative_refused st m : encr c = true -> m < 0 -> send P c iv st m = None.
+Proof. intros E Hm. unfold send. rewrite E. destruct (Z.ltb_spec m 0); [reflexivity|lia]. Qed.
+
+Lemma send_accepted_sign st m w st' : send P c iv st m = Some (w, st') -> encr c = true -> 0 <= m.
 Proof.
-  intros H. unfold expected, expect. induction ms as [|m r IH]; [reflexivity|]. cbn [flat_map].
-  destruct (encr c) eqn:E; cbn [andb].
-  - specialize (H eq_refl). inversion H; subst. destruct (Z.ltb_spec m 0); [lia|]. cbn [dl app]. f_equal. apply IH. intros _. assumption.
-  - cbn [dl app]. f_equal. apply IH. intros D. discriminate.
+  intros H E. destruct (Z.ltb_spec m 0) as [L|L]; [|exact L]. now rewrite (send_negative_refused st m E L) in H.
 Qed.
 
 End Honest.
